@@ -83,6 +83,15 @@ JudgeSearch(e) ==
    \cup Chk("c11.board", SameBoard(e, root))
    ELSE {})
 
+\* a search restricted to a line (search.Context.Ponder): the dump carries the restricted explored flags,
+\* so the reference value is the ordinary one. Beyond the listed properties (evidence-only, X03).
+JudgePonder(e) ==
+  LET r == e.res v == vals[e.depth + 1] root == tree.root IN
+       Chk("x03.ponder-error", r.err = "")
+  \cup Chk("x03.ponder-value", Norm(r.score) = v)
+  \cup Chk("x03.ponder-pv", SoundPV(tree.cfg, root, e.depth, r.pv))
+  \cup Chk("x03.ponder-board", SameBoard(e, root))
+
 JudgeQSearch(e) ==
   IF ~Want("C13") THEN {}
   ELSE LET r == Norm(e.res) IN
@@ -123,6 +132,9 @@ Next ==
             /\ UNCHANGED <<ti, vals, nodraws>>
        [] e.op = "search" ->
             /\ LET f == JudgeSearch(e) IN f # {} => PrintT("FAIL|" \o ToString(l) \o "|" \o ToString(f))
+            /\ UNCHANGED <<ti, vals, qi, qval, nodraws>>
+       [] e.op = "psearch" ->
+            /\ LET f == JudgePonder(e) IN f # {} => PrintT("FAIL|" \o ToString(l) \o "|" \o ToString(f))
             /\ UNCHANGED <<ti, vals, qi, qval, nodraws>>
        [] e.op = "qsearch" ->
             /\ LET f == JudgeQSearch(e) IN f # {} => PrintT("FAIL|" \o ToString(l) \o "|" \o ToString(f))
